@@ -33,6 +33,20 @@ def text_pool(rng, corp, n_valid=4, n_invalid=3):
     if digs:
         i = rng.choice(digs)
         pool.append(v[:i] + chr(0xFF10 + int(v[i])) + v[i + 1:])      # a full-width digit (NFKC maps it to the ASCII one)
+    # a text and what the library itself prints for it (a caller that echoes states back: '-(3)' prints as '-3',
+    # which is another tree): a cache must not file one under the other
+    pair = rng.choice([("-(3)", "-3"), ("-(3) + x", "-3 + x"), ("2 * x", "2x"), ("(x)", "x"), ("x^(2)", "x^2"), ("(2 + 3) + 4", "2 + 3 + 4"), ("2 + (3 + 4)", "2 + 3 + 4"),
+                       ("4 * (x)", "4x"), ("-(x)", "-x"), ("(1 / 2) / 3", "1 / 2 / 3"), ("2 - (3)", "2 - 3"), ("-(3)^2", "-3^2")])
+    pool += list(pair)
+    try:
+        from mathy_core.parser import ExpressionParser as _EP
+
+        for vv in pool[:2]:
+            printed = str(getattr(_EP.parse, "__vmon_original__", _EP.parse)(_EP(), vv))
+            if printed != vv:
+                pool.append(printed)
+    except Exception:
+        pass
     # parenthesised groups at both ends whose outer parentheses do NOT pair with each other, and the peeled form
     a_, b_ = rng.choice(["a", "x + 1", "2y", "4"]), rng.choice(["b", "x - 1", "3", "z^2"])
     grp = f"({a_}){rng.choice(['+', ' * ', '', ' - '])}({b_})"
